@@ -57,6 +57,21 @@ BOUNDARY = [
     (['> # Foo', '> bar', '> baz'], '<blockquote>\n<h1>Foo</h1>\n<p>bar\nbaz</p>\n</blockquote>'), (['>     code', '', '>    not code'], '<blockquote>\n<pre><code>code\n</code></pre>\n</blockquote>\n<blockquote>\n<p>not code</p>\n</blockquote>'),
     (['&nbsp; &amp; &copy; &AElig; &Dcaron;', '', '&#35; &#1234; &#992; &#0;', '', '&nbsp &x; &#; &#x;'],
      '<p>\xa0 &amp; © Æ Ď</p>\n<p># Ӓ Ϡ \ufffd</p>\n<p>&amp;nbsp &amp;x; &amp;#; &amp;#x;</p>'),
+    # 4.3: an underline is a run of '=' or a run of '-'; 6.5: what separates a URI autolink from an email autolink
+    (['foo', '=-=', '', 'bar', '--='], '<p>foo\n=-=</p>\n<p>bar\n--=</p>'),
+    (['<https://user@host/> <mailto@example.com> <MAILTO:a@b.c> <a.b@c.d>'],
+     '<p><a href="https://user@host/">https://user@host/</a> <a href="mailto:mailto@example.com">mailto@example.com</a> '
+     '<a href="MAILTO:a@b.c">MAILTO:a@b.c</a> <a href="mailto:a.b@c.d">a.b@c.d</a></p>'),
+    # 6.1 / 6.2 in link destinations, titles and info strings: an escaped ampersand starts no reference, an escaped backslash
+    # stays one, a reference needs its ';'
+    (['[a](/u "\\&amp; &amp; \\\\&amp;") [b](/\\&amp;)'], '<p><a href="/u" title="&amp;amp; &amp; \\&amp;">a</a> <a href="/&amp;amp;">b</a></p>'),
+    (['[ref a]: /u\\\\*x "&copy &copy; \\&copy;"', '', '[ref a] ![Ref  A][]'],
+     '<p><a href="/u%5C*x" title="&amp;copy © &amp;copy;">ref a</a> <img src="/u%5C*x" alt="Ref  A" title="&amp;copy © &amp;copy;" /></p>'),
+    (['```&copy', 'x', '```', '', '~~~ \\&amp;', '~~~'], '<pre><code class="language-&amp;copy">x\n</code></pre>\n<pre><code class="language-&amp;amp;"></code></pre>'),
+    # GFM tables: empty cells, short rows
+    (['|a||c|', '|-|-|-|', '|1||3|', '|x|'],
+     '<table>\n<thead>\n<tr>\n<th align="left">a</th>\n<th align="left"></th>\n<th align="left">c</th>\n</tr>\n</thead>\n<tbody>\n<tr>\n<td align="left">1</td>\n'
+     '<td align="left"></td>\n<td align="left">3</td>\n</tr>\n<tr>\n<td align="left">x</td>\n<td align="left"></td>\n<td align="left"></td>\n</tr>\n</tbody>\n</table>'),
 ]
 LEAVES = LEAVES + ['boundary:%d' % i for i in range(len(BOUNDARY))]
 
